@@ -223,7 +223,10 @@ def labels_cases(ctx, n):
                     break
                 want = iso_label(ranges, idx)
                 if idx >= len(got) or got[idx] != want:
-                    ctx.violation(family, {"entries": [[k, s, (p or b"").hex(), st] for k, s, p, st in entries],
+                    fam2 = family
+                    if start is not None and start[1] in ("A", "a") and start[3] + idx - start[0] > 26:
+                        fam2 = "labels-alpha27"          # the recorded deviation, reached from another family
+                    ctx.violation(fam2, {"entries": [[k, s, (p or b"").hex(), st] for k, s, p, st in entries],
                                            "page": idx}, want, got[idx] if idx < len(got) else err,
                                   "page label differs from ISO 32000-1 12.4.2")
                     break
